@@ -177,6 +177,21 @@ where
         gate("wrong-trusted-commitment", &zk, &c_issuer, Some(&wt), key, &bases, cpk, &hidden, "trusted party committed to another value".into())?;
         rep.class("trusted-commitment");
     }
+    // mode mismatch: a proof made without the trusted-party sub-proof presented to an issuer that requires one
+    if let Some(t) = tp {
+        let (z_plain, tc) = if use_tp {
+            (catch(|| ZKPoK::<CL03<CS>>::generate_proof(&msgs, &cc, None, pk, &bases, None, &hidden)).ok(), t_issuer.clone())
+        } else {
+            (serde_json::from_value::<ZKPoK<CL03<CS>>>(zk_json.clone()).ok(), Some(CL03Commitment { value: Commitment::<CL03<CS>>::commit_with_commitment_pk(&msgs, t, Some(&hidden)).cl03Commitment().value.clone(), randomness: Integer::new() }))
+        };
+        if let (Some(zp), Some(tc)) = (z_plain, tc) {
+            gate("trusted-commitment-required-but-sub-proof-missing", &zp, &c_issuer, Some(&tc), key, &bases, Some(t), &hidden, "proof generated with C_trusted = None".into())?;
+        }
+        if use_tp {
+            // the sub-proof is there but checked against the commitment key / commitment of nobody
+            gate("trusted-sub-proof-against-other-commitment-key", &zk, &c_issuer, t_issuer.as_ref(), key, &bases, Some(&CL03CommitmentPublicKey::generate::<CS>(Some(pk.N.clone()), Some(n))), &hidden, "commitment key over the issuer modulus instead of the trusted party's".into())?;
+        }
+    }
     // field-wise edits of every integer leaf of the proof
     let leaves = int_leaves(&zk_json);
     let edits = pick_edits(&leaves, c.leaf_edits, &mut st);
